@@ -26,10 +26,13 @@ func genSpec(r *lib.Rng, kind ops.NodeKind, arity, listCol int) ops.Spec {
 		s.I = listCol
 	case ops.NLookup:
 		tarity := 1 + r.Intn(2)
-		insertOnly := r.Chance(3, 4)
+		insertOnly := r.Chance(1, 2)
 		s.Table = ops.GenChangelog(r, tarity, -1, 5, insertOnly, true)
 		s.A = r.Intn(tarity)
 		s.B = r.Intn(arity)
+		if r.Chance(2, 3) {
+			s.A, s.B = 0, 0 // column 0 is the small-int column on both sides: frequent matches
+		}
 	case ops.NLimit:
 		s.N = int64(r.Intn(7))
 		if r.Chance(1, 12) {
@@ -58,7 +61,7 @@ func main() {
 		"duplicates, NULLs, -0/NaN floats, list column for Unnest, watermarks, event times; 1 in 10 scripts retracts an absent row and is used for the tie only); " +
 		"non-trivial = valid script with at least one retraction and one duplicate insertion (Limit/insert-only nodes: at least 3 records); distinct by full case text"
 	n := f.Cases(900, 9000)
-	kinds := []ops.NodeKind{ops.NFilter, ops.NMap, ops.NUnnest, ops.NLookup, ops.NDistinct, ops.NDistinct, ops.NLimit, ops.NOst, ops.NOst, ops.NPrinter}
+	kinds := []ops.NodeKind{ops.NFilter, ops.NMap, ops.NUnnest, ops.NLookup, ops.NLookup, ops.NDistinct, ops.NDistinct, ops.NLimit, ops.NOst, ops.NOst, ops.NPrinter}
 	for i := 0; i < n; i++ {
 		r := rng.Fork()
 		kind := kinds[i%len(kinds)]
